@@ -95,20 +95,114 @@ Proof.
       reflexivity.
 Qed.
 
+(* ---- static demand in general: a stop that may deliver AND pick up static amounts (as merged jobs do) ---- *)
+Definition static_demand (d : demand) : Prop := 0 <= d_ps d /\ 0 <= d_ds d /\ d_pd d = 0 /\ d_dd d = 0.
+
+Lemma pure_static_static : forall d, pure_static d -> static_demand d.
+Proof. intros d (H1 & H2 & H3 & H4 & _). unfold static_demand. tauto. Qed.
+
+Lemma static_demand_simple : forall d, static_demand d -> simple_demand d.
+Proof. intros d (H1 & H2 & H3 & H4). unfold simple_demand. repeat split; lia. Qed.
+
+(* every current load lies below the larger of the two summaries of any pivot *)
+Lemma cur_in_le_max : forall t k x, (k < length t)%nat -> In x (cur_states t) ->
+  x <= Z.max (nthz (past_states t) k) (nthz (fut_states t) k).
+Proof.
+  intros t k x Hk Hin. destruct (split_at t k (mkAct 0 0 0 0 0 dzero 0 0) Hk) as [Et Hl].
+  set (A := firstn k t) in *. set (q := nth k t (mkAct 0 0 0 0 0 dzero 0 0)) in *. set (B := skipn (S k) t) in *.
+  rewrite <- Hl. rewrite Et. rewrite Et in Hin. rewrite (cur_split A q B) in Hin. apply in_app_or in Hin as [Hin|Hin].
+  - pose proof (in_cA_le_past A q B x Hin). lia.
+  - pose proof (in_cB_le_fut A q B x (or_intror Hin)). lia.
+Qed.
+
+Lemma fut0_le_max : forall t k, (k < length t)%nat ->
+  nthz (fut_states t) 0 <= Z.max (nthz (past_states t) k) (nthz (fut_states t) k).
+Proof.
+  intros t k Hk. apply cur_in_le_max; [exact Hk|].
+  assert (H0 : (0 < length t)%nat) by lia.
+  destruct (split_at t 0 (mkAct 0 0 0 0 0 dzero 0 0) H0) as [Et Hl].
+  set (A := firstn 0 t) in *. set (q := nth 0 t (mkAct 0 0 0 0 0 dzero 0 0)) in *. set (B := skipn 1 t) in *.
+  pose proof (fut_attained A q B) as H. rewrite Hl in H. rewrite <- Et in H.
+  rewrite Et at 2. rewrite (cur_split A q B).
+  destruct (cA_shape A q B) as (X & HX & HlX). rewrite HX. rewrite Hl in HlX. destruct X; [|cbn in HlX; lia]. cbn [app].
+  rewrite <- Et. exact H.
+Qed.
+
+Lemma past_last_le_max : forall t k, (k < length t)%nat ->
+  nthz (past_states t) (length t - 1) <= Z.max (nthz (past_states t) k) (nthz (fut_states t) k).
+Proof.
+  intros t k Hk.
+  assert (Hl0 : (length t - 1 < length t)%nat) by lia.
+  destruct (split_at t (length t - 1) (mkAct 0 0 0 0 0 dzero 0 0) Hl0) as [Et Hl].
+  set (A := firstn (length t - 1) t) in *. set (q := nth (length t - 1) t (mkAct 0 0 0 0 0 dzero 0 0)) in *.
+  set (B := skipn (S (length t - 1)) t) in *.
+  pose proof (past_attained A q B) as H. rewrite Hl in H. rewrite <- Et in H. destruct H as [H|H].
+  - rewrite H. pose proof (past_states_mono t 0 k ltac:(lia)).
+    assert (0 <= nthz (past_states t) k).
+    { destruct (split_at t k (mkAct 0 0 0 0 0 dzero 0 0) Hk) as [Et' Hl'].
+      set (A' := firstn k t) in *. set (q' := nth k t (mkAct 0 0 0 0 0 dzero 0 0)) in *. set (B' := skipn (S k) t) in *.
+      rewrite <- Hl'. rewrite Et'. rewrite (past_at A' q' B'). apply lmax_ge_init. }
+    lia.
+  - apply cur_in_le_max; [exact Hk|].
+    assert (E : cur_states t = cur_states (A ++ q :: B)) by (f_equal; exact Et).
+    rewrite E. rewrite (cur_split A q B). apply in_or_app. left. rewrite <- Et. exact H.
+Qed.
+
+(* the route-level capacity pre-check (violation at the start border AND at the end border) passes whenever some position passes
+   the activity-level test: with M1 = max past load and M2 = max future load of that position, the end border passes when M2 <= M1
+   and the start border passes otherwise *)
+Lemma route_cap_ok_static : forall v t j k,
+  static_demand (s_dem j) -> 0 <= v_cap v -> (k < length t)%nat -> t <> [] ->
+  load_feasible (v_cap v) t = true ->
+  demand_violation v t k (s_dem j) true = None ->
+  eval_route_cap v t j = true.
+Proof.
+  intros v t j k (H1 & H2 & H3 & H4) Hc Hk Hne Hf Hv.
+  assert (Hlen : (0 < length t)%nat) by (destruct t; [congruence|cbn; lia]).
+  pose proof (past_states_mono t 0 k ltac:(lia)) as HP0.
+  pose proof (fut_states_mono t k (length t - 1) ltac:(lia)) as HFl.
+  pose proof (fut0_le_max t k Hk) as HF0.
+  pose proof (past_last_le_max t k Hk) as HPl.
+  pose proof (cur_le_fut t 0 ltac:(lia)) as HC0.
+  pose proof (cur_le_fut t (length t - 1) ltac:(lia)) as HCl.
+  pose proof (fut_le_cap v t k Hf Hk) as HFk.
+  pose proof (past_le_cap v t k Hf Hk Hc) as HPk.
+  unfold eval_route_cap, demand_violation in *. unfold d_change in *. rewrite H3, H4 in *.
+  set (P0 := nthz (past_states t) 0) in *. set (Pk := nthz (past_states t) k) in *. set (Pl := nthz (past_states t) (length t - 1)) in *.
+  set (F0 := nthz (fut_states t) 0) in *. set (Fk := nthz (fut_states t) k) in *. set (Fl := nthz (fut_states t) (length t - 1)) in *.
+  set (C0 := nthz (cur_states t) 0) in *. set (Ck := nthz (cur_states t) k) in *. set (Cl := nthz (cur_states t) (length t - 1)) in *.
+  set (ps := d_ps (s_dem j)) in *. set (ds := d_ds (s_dem j)) in *. set (cap := v_cap v) in *.
+  destruct (negb (ds =? 0) && (cap <? Pk + ds)) eqn:E1; [discriminate|].
+  destruct (negb (ps =? 0) && (cap <? Fk + ps)) eqn:E2; [discriminate|].
+  destruct (negb (ps + 0 - ds - 0 =? 0) && ((cap <? Fk + (ps + 0 - ds - 0)) || (cap <? Ck + (ps + 0 - ds - 0)))) eqn:E3; [discriminate|].
+  destruct (Z_le_gt_dec Fk Pk) as [Hcase|Hcase].
+  - (* the end border passes *)
+    destruct (negb (ds =? 0) && (cap <? P0 + ds)) eqn:A1;
+    [|destruct (negb (ps =? 0) && (cap <? F0 + ps)) eqn:A2;
+      [|destruct (negb (ps + 0 - ds - 0 =? 0) && ((cap <? F0 + (ps + 0 - ds - 0)) || (cap <? C0 + (ps + 0 - ds - 0)))) eqn:A3; [|reflexivity]]];
+    (destruct (negb (ds =? 0) && (cap <? Pl + ds)) eqn:B1; [lia|];
+     destruct (negb (ps =? 0) && (cap <? Fl + ps)) eqn:B2; [lia|];
+     destruct (negb (ps + 0 - ds - 0 =? 0) && ((cap <? Fl + (ps + 0 - ds - 0)) || (cap <? Cl + (ps + 0 - ds - 0)))) eqn:B3; [lia|reflexivity]).
+  - (* the start border passes *)
+    destruct (negb (ds =? 0) && (cap <? P0 + ds)) eqn:A1; [lia|].
+    destruct (negb (ps =? 0) && (cap <? F0 + ps)) eqn:A2; [lia|].
+    destruct (negb (ps + 0 - ds - 0 =? 0) && ((cap <? F0 + (ps + 0 - ds - 0)) || (cap <? C0 + (ps + 0 - ds - 0)))) eqn:A3; [lia|reflexivity].
+Qed.
+
 (* the whole evaluation of a single job in exhaustive mode *)
 Theorem eval_single_complete_closed : forall dur est rc v shift_start t j p w k,
   s_places j = [p] -> p_tws p = [w] ->
   (forall a b, 0 <= dur a b) -> 0 <= p_svc p -> 0 <= v_cap v ->
   sched_ok dur t -> feasible dur v t = true ->
   Forall (fun a => a_tws a <= v_shift_end v) t -> fst w <= v_shift_end v -> shift_start <= snd w ->
-  (forall d, d_change (a_dem (hd d t)) = 0) -> 0 <= start_delivery t -> pure_static (s_dem j) ->
+  (forall d, d_change (a_dem (hd d t)) = 0) -> 0 <= start_delivery t -> static_demand (s_dem j) ->
   (2 <= length t)%nat -> (k < length t - 1)%nat ->
   feasible dur v (insert_after t k (target t j p w k)) = true ->
   exists idx pl c, eval_single_gen dur est rc v shift_start true t j PAny = ESuccess idx pl c /\
                    feasible dur v (insert_after t idx (target t j p w idx)) = true.
 Proof.
   intros dur est rc v shift_start t j p w k Hj Hp Hdur Hsvc Hcap Hs Hf Hwin Hwt Hss Hstart Hnn Hdem Hlen Hk Hfk.
-  pose proof (pure_static_simple _ Hdem) as Hsd.
+  pose proof (static_demand_simple _ Hdem) as Hsd.
   destruct (scan_complete_closed dur est v t j p w rc Hj Hp Hdur Hsvc Hs Hf Hwin Hwt Hstart Hnn Hsd k Hlen Hk Hfk) as [Hfound Hsound].
   unfold eval_single_gen.
   assert (ERT : eval_route_time (shift_start, v_shift_end v) j = true).
@@ -119,7 +213,7 @@ Proof.
   { assert (Hk' : (k < length t)%nat) by lia.
     pose proof Hf as Hf0. unfold feasible in Hf0, Hfk. apply andb_true_iff in Hf0 as [_ Hfl]. pose proof Hfk as Hfk0.
     apply andb_true_iff in Hfk0 as [_ Hil].
-    apply (route_cap_ok v t j k Hdem Hcap Hk'); [destruct t; [cbn in Hlen; lia|discriminate]|exact Hfl|].
+    apply (route_cap_ok_static v t j k Hdem Hcap Hk'); [destruct t; [cbn in Hlen; lia|discriminate]|exact Hfl|].
     replace (s_dem j) with (a_dem (target t j p w k)) by reflexivity.
     apply cap_complete_idx; try assumption. }
   rewrite ERC. cbn [negb].
